@@ -275,3 +275,72 @@ func VH_c15_defined_set() {
 	c15same(w1, w2, false)
 	vReach("end")
 }
+
+// C15 (community sets): the import policy rejects routes carrying a community of a community set;
+// one member is removed from the set through RoutingPolicy.DeleteDefinedSet(all=false) - the call
+// behind the DeleteDefinedSet API - or added with AddDefinedSet, and the soft reset in runs. The
+// Loc-RIB must equal a fresh evaluation with the edited set.
+func c15commPolicy(members [2]bool) (*oc.RoutingPolicy, map[string]oc.ApplyPolicy) {
+	rp := &oc.RoutingPolicy{}
+	cs := oc.CommunitySet{CommunitySetName: "cs1"}
+	for i, in := range members {
+		if in {
+			cs.CommunityList = append(cs.CommunityList, []string{"65000:1", "65000:2"}[i])
+		}
+	}
+	rp.DefinedSets.BgpDefinedSets.CommunitySets = []oc.CommunitySet{cs}
+	st := oc.Statement{Name: "s1"}
+	st.Conditions.BgpConditions.MatchCommunitySet.CommunitySet = "cs1"
+	st.Conditions.BgpConditions.MatchCommunitySet.MatchSetOptions = oc.MATCH_SET_OPTIONS_TYPE_ANY
+	st.Actions.RouteDisposition = oc.ROUTE_DISPOSITION_REJECT_ROUTE
+	rp.PolicyDefinitions = []oc.PolicyDefinition{{Name: "p1", Statements: []oc.Statement{st}}}
+	ap := oc.ApplyPolicy{}
+	ap.Config.ImportPolicyList = []string{"p1"}
+	ap.Config.DefaultImportPolicy, ap.Config.DefaultExportPolicy = oc.DEFAULT_POLICY_TYPE_ACCEPT_ROUTE, oc.DEFAULT_POLICY_TYPE_ACCEPT_ROUTE
+	return rp, map[string]oc.ApplyPolicy{table.GLOBAL_RIB_NAME: ap}
+}
+
+func c15commWorld(members [2]bool) *c15world {
+	fams := []bgp.Family{bgp.RF_IPv4_UC}
+	w := &c15world{s: vServer(65000, fams), view: map[string]*table.Path{}}
+	rp, ap := c15commPolicy(members)
+	if err := w.s.policy.Reset(rp, ap); err != nil {
+		panic(err)
+	}
+	w.a = vEstablished(w.s, vNeighbor(2, 65001, 65000, fams), fams)
+	w.t = vEstablished(w.s, vNeighbor(4, 65003, 65000, fams), fams)
+	return w
+}
+
+func (w *c15world) feedComm() {
+	for i := 0; i < 2; i++ {
+		m := vUpdate4(vPrefix4(10, byte(1+i), 0, 0, 16), false, []uint32{65001}, vAddr4(10, 0, 0, 2))
+		u := m.Body.(*bgp.BGPUpdate)
+		u.PathAttributes = append(u.PathAttributes, bgp.NewPathAttributeCommunities([]uint32{65000<<16 | uint32(1+i)}))
+		vRecv(w.s, w.a, m, int64(10+i))
+		w.drain()
+	}
+}
+
+func VH_c15_community_set() {
+	old := [2]bool{true, true}
+	k := vChoice("removed_member", 2)
+	cur := old
+	cur[k] = false
+	w1 := c15commWorld(old)
+	w1.feedComm()
+	gone, err := table.NewCommunitySet(oc.CommunitySet{CommunitySetName: "cs1", CommunityList: []string{[]string{"65000:1", "65000:2"}[k]}})
+	vAssert(err == nil, "community set refused")
+	vAssert(w1.s.policy.DeleteDefinedSet(gone, false) == nil, "removing a member of a defined set failed")
+	readd := vBool("add_it_back")
+	if readd {
+		vAssert(w1.s.policy.AddDefinedSet(gone, false) == nil, "adding a member to a defined set failed")
+		cur = old
+	}
+	vAssert(w1.s.softResetIn("", bgp.RF_IPv4_UC) == nil, "soft reset failed")
+	w1.drain()
+	w2 := c15commWorld(cur)
+	w2.feedComm()
+	c15same(w1, w2, false)
+	vReach("end")
+}
